@@ -3,7 +3,7 @@ From Coq Require Import Permutation.
 From Cctp Require Import Lib.Bytes Lib.SMap Lib.Bech32.
 From Cctp Require Import Model.Codec Model.State Model.Ledger Model.Handlers Model.Chain Model.Genesis.
 From Cctp Require Import Proofs.MonadFacts Proofs.StoreFacts Proofs.GenesisFacts Proofs.ExportFacts.
-From Cctp Require Import Gen.GoSem Gen.GoSemGenesis Gen.GoG_InitGenesis Gen.GoG_ExportGenesis.
+From Cctp Require Import Gen.GoSem Gen.GoSemGenesis Gen.GoG_InitGenesis Gen.GoG_ExportGenesis Gen.GoG_Validate.
 
 (* Validation rejects any genesis in which two entries of a keyed list would occupy the same store key:
    an accepted genesis has pairwise distinct keys in each of the five lists, so initialisation never
@@ -80,14 +80,17 @@ Proof.
   destruct (init_export tiny_store Ws Xs) as (g&E&I'). exists g. split; [exact E|]. rewrite I'. intros H. injection H as H. discriminate H.
 Qed.
 
-(* InitGenesis and ExportGenesis AS TRANSLATED from x/cctp/genesis.go of /repo on this run (tools/goextract ->
-   Gen/GoG_InitGenesis.v, Gen/GoG_ExportGenesis.v; loops over the genesis lists, pointer fields, the threshold panic):
+(* InitGenesis and ExportGenesis of x/cctp/genesis.go and GenesisState.Validate of x/cctp/types/genesis.go AS TRANSLATED from
+   /repo on this run (tools/goextract -> Gen/GoG_InitGenesis.v, Gen/GoG_ExportGenesis.v, Gen/GoG_Validate.v; loops over the
+   genesis lists, pointer fields, the threshold panic, the index maps of the duplicate checks): the translated Validate
+   accepts exactly the genesis states the model's validate accepts (go_Validate e g h = (if validate e g then ROk tt else
+   RErr, h): each of the five duplicate loops rejects exactly when two entries share a store key);
    run on an empty store the translated InitGenesis leaves exactly the model's init_genesis store (and panics exactly when
    the model does); on a chain whose pause flags are set the translated ExportGenesis returns exactly the model's
    export_genesis, changes nothing, and panics exactly when a role slot is unset.  For a function the translator could
    not read the conjunct is True (the generated file names the reason, the evidence lists it). *)
-Theorem C17_go_genesis_functions_are_the_model : go_InitGenesis_ok /\ go_ExportGenesis_ok.
-Proof. split; [exact go_InitGenesis_ok_proof|exact go_ExportGenesis_ok_proof]. Qed.
+Theorem C17_go_genesis_functions_are_the_model : go_InitGenesis_ok /\ go_ExportGenesis_ok /\ go_Validate_ok.
+Proof. split; [exact go_InitGenesis_ok_proof|split; [exact go_ExportGenesis_ok_proof|exact go_Validate_ok_proof]]. Qed.
 
 Print Assumptions C17_validation_rejects_colliding_keys.
 Print Assumptions C17_export_after_init.
